@@ -18,8 +18,8 @@ INTS = [0, 0, 1, 5, -3, 42, 100, 2]
 FLOATS = [0.0, 0.0, 0.5, 1.0, -2.5, 0.001, 3.14]
 STRS = ["", "", "mnist", "foo", "bar baz", "a_b", "~/data", "x", "None0"]
 BOOLS = [False, False, True]
-COMPLEX = [0j, 1j, 2.5 + 1j]
-RET_CODES = ["```np.empty(0)```", "```foo(3)```", "K", "(a, b)", "```(1, 2)```", "```0```", "```None```"]
+COMPLEX = [0j, 1j, 1j, 2j, 1j, 2j, 2.5 + 1j]
+RET_CODES = ["```np.empty(0)```", "```foo(3)```", "K", "K", "(a, b)", "```(1, 2)```", "np.empty(0)"]
 CODES = ["```np.empty(0)```", "```tf.zeros(3)```", "```(1, 2)```"]
 
 
@@ -75,7 +75,7 @@ def gen_default(r, typ, kind, bases, none_ok=True, p_falsy=0.45):
     return None
 
 
-def gen_ir(r, nparams=None, with_return=None, ret_default=None, with_doc=True, kinds=None, none_ok=True, name="F", p_falsy=0.45, typed=True):
+def gen_ir(r, nparams=None, with_return=None, ret_default=None, with_doc=True, kinds=None, none_ok=True, name="F", p_falsy=0.45, ftype="static", trigger_docs=False):
     n = r.randint(0, 5) if nparams is None else nparams
     names = r.sample(NAMES, n)
     params = OrderedDict()
@@ -84,7 +84,7 @@ def gen_ir(r, nparams=None, with_return=None, ret_default=None, with_doc=True, k
         typ, kind, bases = gen_typ(r, kinds)
         p = OrderedDict()
         if with_doc if isinstance(with_doc, bool) else r.random() < with_doc:
-            p["doc"] = r.choice(MORE_DOCS)
+            p["doc"] = r.choice(TRIGGER_DOCS if trigger_docs and r.random() < 0.5 else MORE_DOCS)
         p["typ"] = typ
         if i >= first_default:
             d = gen_default(r, typ, kind, bases, none_ok, p_falsy)
@@ -107,4 +107,4 @@ def gen_ir(r, nparams=None, with_return=None, ret_default=None, with_doc=True, k
             # the IR convention (all mocks): a return entry's default is the *source* of the returned expression
             rt["default"] = r.choice(RET_CODES)
         ret = OrderedDict((("return_type", rt),))
-    return {"name": name, "doc": r.choice(["", "Summary line.", "Summary line.\n\nLonger description here."]), "params": params, "returns": ret, "type": "static"}
+    return {"name": name, "doc": r.choice(["", "Summary line.", "Summary line.\n\nLonger description here."]), "params": params, "returns": ret, "type": ftype}
